@@ -857,7 +857,7 @@ Section Fair.
     (* t is turning in the Gosched loop: its key is pending, so the key has a leader *)
     destruct Hsp as (s & _ & Hpend).
     pose proof (inv_cnt _ (S_inv (k + d)) s) as Hcnt. rewrite Hpend in Hcnt.
-    destruct (nleaders_exists _ s ltac:(lia)) as (u & thu & Hnu & HLu).
+    destruct (nleaders_exists (threads (S (k + d))) s ltac:(rewrite Hcnt; lia)) as (u & thu & Hnu & HLu).
     assert (Hu : (u < length progs)%nat).
     { rewrite <- (S_length (k + d)). apply nth_error_Some. congruence. }
     destruct (fair u Hu (k + d)%nat) as (m2 & Hkm2 & Hsm2).
@@ -884,3 +884,29 @@ Lemma terminates_weak_fairness_lemma : forall (progs : list (list str)) (sched :
   (forall t, (t < length progs)%nat -> forall k, exists m, (k <= m)%nat /\ sched m = t) ->
   exists n, final (run_inf sched n (init progs)) = true.
 Proof. exact terminates_fair_section. Qed.
+
+(* ------------------------------------------------------------------ examples (non-vacuity) *)
+Definition ex_key : str := [118;101;114;121;108;111;110;103]%N.   (* not inline: 8 symbols *)
+Definition ex_inline : str := [97;98;99]%N.                       (* inline *)
+
+Lemma example_char6 :
+  encode ex_inline = Some (-212278) /\ decode (-212278) = ex_inline /\ encode ex_key = None /\
+  encode [97;46]%N = None /\ encode [46;97]%N = Some (-3393).
+Proof. vm_compute. repeat split; reflexivity. Qed.
+
+Lemma example_contention :
+  let progs := [[ex_key; ex_inline]; [ex_key]] in
+  let mid := run [0;0;1;1;1;1]%nat (init progs) in
+  let fin := run [0;0;1;1;1;1;1;1;0;0;1;1;0;0]%nat (init progs) in
+  map pc (threads mid) = [PAppend ex_key; PSpin ex_key] /\
+  final fin = true /\
+  map res (threads fin) = [[(ex_key, 1); (ex_inline, -212278)]; [(ex_key, 1)]] /\
+  log fin = [ex_key] /\ value (log fin) 1 = Some ex_key /\ query (index fin) ex_key = (1, true).
+Proof. vm_compute. repeat split; reflexivity. Qed.
+
+Lemma example_fair :
+  forall t, (t < 2)%nat -> forall k, exists m, (k <= m)%nat /\ Nat.modulo m 2 = t.
+Proof.
+  intros t Ht k. exists (t + k * 2)%nat. split; [lia|].
+  rewrite Nat.mod_add by discriminate. apply Nat.mod_small. exact Ht.
+Qed.
